@@ -33,6 +33,33 @@ package codegen
 //@   at! `append(obj.Implements, b.Schema.Types[intf.Name])` requires arg1 == b.Schema.Types[intf.Name]
 //@   at `assign obj` requires rhs0.Definition == typ && (rhs0.DisableConcurrency <==> typ == b.Schema.Mutation) && (rhs0.Stream <==> typ == b.Schema.Subscription)
 //@   ensures res1 == nil ==> res0 != nil
+// C02: a field bound to a Go method passes its arguments positionally (Field.CallArgs): the j-th entry of the list
+// bindArgs returns is the schema argument whose name matches the j-th Go parameter - the list follows the
+// METHOD's parameter order, not the schema's.
+//@ trusted (*go/types.Tuple).Len() (n)
+//@   nopanic
+//@   pure
+//@ trusted (*go/types.Tuple).At(i) (v)
+//@   pure
+//@ trusted (*go/types.object).Name() (s)
+//@   pure
+//@ trusted (*go/types.object).Type() (t)
+//@   pure
+//@ trusted (*go/types.Signature).Variadic() (b)
+//@   pure
+//@ trusted strings.EqualFold(a, b) (eq)
+//@   nopanic
+//@   pure
+//@ trusted (*github.com/99designs/gqlgen/codegen/config.Binder).TypeReference(schemaType, bindTarget) (tr, err)
+//@ func (*builder).bindArgs [C02]
+//@   requires b != nil && field != nil && params != nil && sig != nil
+//@   ghost matched = false
+//@   at! `params.At(j)` requires arg0 == j
+//@   at! `strings.EqualFold(oldArg.Name, param.Name())` ghost matched = callres0
+//@   at! `append(newArgs, oldArg)` requires matched && arg1 == oldArg && len(newArgs) == j
+//@   loop 1: invariant len(newArgs) == j && j >= 0
+//@   loop 2: invariant len(newArgs) == j
+//@   ensures res1 == nil ==> len(res0) >= 0
 //@ func (*Field).IsConcurrent [C06]
 //@   requires f != nil && f.Object != nil
 //@   ensures f.Object.DisableConcurrency ==> !res0
@@ -62,9 +89,16 @@ package codegen
 //@   nopanic
 //@   ensures res1 == nil && res0 != nil
 // with arguments: a panic while unmarshaling the arguments is contained and reported once, any failure gives err.
-//@ family fieldctxargs [C04,C02]
+//@ family fieldctxargs [C04,C02,C01]
 //@   noescape
 //@   ensures res0 != nil
+// C01 (error paths): whatever goes wrong while the arguments are coerced - an error or a recovered panic - is
+// reported under the FIELD's own context (the one WithFieldContext returned for fc), not the enclosing object's
+//@   ghost fctx = nil
+//@   at! `graphql.WithFieldContext(ctx, fc)` ghost fctx = callres0
+//@   at! `graphql.WithFieldContext(ctx, fc)` requires arg1 == fc
+//@   callsite Error: requires arg0 == fctx && fctx != nil
+//@   callsite Recover: requires arg0 == fctx && fctx != nil
 //@   ensures panicked ==> calls(Recover) == 1 && calls(Error) == 1
 //@   ensures !panicked && res1 != nil ==> calls(Error) == 1
 
